@@ -44,6 +44,7 @@ def make_client(agent, version="v2c", level="noauth", community="public", user="
             "auth": (auth.method, auth.key) if auth else None,
             "priv": (priv.method, priv.key) if priv else None,
             "pad": 8 if level.endswith("-pad") else None,  # the agent pads encrypted payloads like a block cipher
+            "encrypt_reports": level.endswith("-pad"),  # … and sends its authenticated reports encrypted as well
         }
     return Client("127.0.0.1", creds, sender=agent)
 
